@@ -7,9 +7,10 @@ publishes its change (`c.bus.Send(…)` at the end of `Collection.Update`; `Coll
 publishes while it still holds the lock.  Between the two halves of an `Update` anything may happen:
 other writers store and publish, subscriptions open.
 
-* a `World` is the store, the injected clock (it ticks at every reading: once when the value is
-  stored — the item's change time —, once when the change literal is built — the event's change
-  time), and the writers that have stored but not published (`pending`, in storage order);
+* a `World` is the store, the injected clock (it advances by `tick` at every reading — any step, 0 for
+  a clock that stands still, so that every item and every change carry the same time —: once when the
+  value is stored — the item's change time —, once when the change literal is built — the event's
+  change time), and the writers that have stored but not published (`pending`, in storage order);
 * a `Step` is one half of a write: `add` / `update` up to (not including) `bus.Send`, `publish k`
   the `bus.Send` of the k-th waiting writer (ANY of them: publications may overtake each other),
   `delete` both halves at once;
@@ -35,6 +36,8 @@ structure World where
   store : Store := []
   clock : Int := 0
   pending : List Pending := []
+  /-- how far the injected clock advances at every reading (the harness's: 1; a clock that stands still: 0) -/
+  tick : Int := 1
 deriving Repr
 
 inductive Step where
@@ -52,26 +55,26 @@ def step (w : World) : Step → World × List CollectionChange
     match lookup w.store id with
     | some _ => (w, [])                                       -- ExpectAbsentPreconditionFailed
     | none =>
-      ({ store := w.store ++ [⟨id, m, w.clock + 1⟩], clock := w.clock + 1,
-         pending := w.pending ++ [⟨id, .add, none, m⟩] }, [])
+      ({ store := w.store ++ [⟨id, m, w.clock + w.tick⟩], clock := w.clock + w.tick,
+         pending := w.pending ++ [⟨id, .add, none, m⟩], tick := w.tick }, [])
   | .update id m =>
     match lookup w.store id with
     | none => (w, [])                                         -- NotFound
     | some e =>
-      ({ store := w.store.map (fun x => if x.id == id then ⟨id, m, w.clock + 1⟩ else x), clock := w.clock + 1,
-         pending := w.pending ++ [⟨id, .update, some e.body, m⟩] }, [])
+      ({ store := w.store.map (fun x => if x.id == id then ⟨id, m, w.clock + w.tick⟩ else x),
+         clock := w.clock + w.tick, pending := w.pending ++ [⟨id, .update, some e.body, m⟩], tick := w.tick }, [])
   | .publish k =>
     match w.pending[k]? with
     | none => (w, [])
     | some p =>
-      ({ w with clock := w.clock + 1, pending := w.pending.eraseIdx k },
-        [⟨p.id, w.clock + 1, p.kind, p.old, some p.new, false, false⟩])
+      ({ w with clock := w.clock + w.tick, pending := w.pending.eraseIdx k },
+        [⟨p.id, w.clock + w.tick, p.kind, p.old, some p.new, false, false⟩])
   | .delete id =>
     match lookup w.store id with
     | none => (w, [])                                         -- NotFound
     | some e =>
-      ({ w with store := w.store.filter (fun x => x.id != id), clock := w.clock + 1 },
-        [⟨id, w.clock + 1, .remove, some e.body, none, false, false⟩])
+      ({ w with store := w.store.filter (fun x => x.id != id), clock := w.clock + w.tick },
+        [⟨id, w.clock + w.tick, .remove, some e.body, none, false, false⟩])
 
 /-- A schedule: the world at the end and everything published on the way, in order. -/
 def run : World → List Step → World × List CollectionChange
